@@ -2,7 +2,7 @@
 import e2e
 from props import _sim
 
-GEN_FILES = ["Simulate.v", "PanelGen.v"]
+GEN_FILES = ["Simulate.v", "PanelGen.v", "ComputeTargets.v"]
 TRUSTED = e2e.TRUSTED + ["pandas.DataFrame(dict, index) and MultiIndex.from_product (third party)",
                          "Model/Panel.v (concatenate + repeat(arange)) is a hand model of _process_simulated_data/_as_data_frame, tied by the runs"]
 ASSUMPTIONS = e2e.ASSUMPTIONS
